@@ -210,10 +210,11 @@ CHECKS["C14"] = {
     "extra_parts": [{"package": "seq", "bin": "c14s", "flavor": "seq", "shards": {"quick": 4, "thorough": 16}}],
     "aux_tsan": {"tiers": ["thorough"], "bins": ["c14s"], "budget_ms": 120000},
     "aux_miri": {"tiers": ["thorough"], "part": "all", "seeds": 4},
+    "timeout": {"quick": 1500, "thorough": 7200},
     "distinct_from_extra": "distinct_schedules",
     "level": "exploration",
     "technique": "runtime monitoring under controlled scheduling: the real sentinel-core with its std::sync primitives, atomics and lazy statics switched to the shuttle runtime (--cfg sentinel_verif_sched) is run under every schedule with <= k preemptions (CHESS-style enumeration, k = 1..3) and under randomised and PCT(1..3) schedulers; a ledger oracle is evaluated after join in every execution; plus barrier-released real OS-thread stress with the same oracle",
-    "rule": "scheduled half: 112 scenarios = {2,3 threads} x {1,2 build/exit pairs each} x {brand-new, existing resource} x {inbound, outbound} x {clock fixed inside a bucket, a further thread steps the clock at a scheduler-chosen point by 100 ms (inside the bucket: response times become non-zero, totals stay exact), 300 / 600 ms (across one / two bucket edges) or 10 s (one whole ring interval: the same slot again)} x {all exited, last entry of every thread left open}; each scenario explored with 5000 (quick) / 100000 (thorough) executions split over a random scheduler and PCT depth 1-3; evaluations = executions, distinct_nontrivial = number of DISTINCT schedules (hash of the sequence of scheduling decisions) summed over scenarios - every execution has >=2 contending threads. Stress half: 12k (quick) / 200k (thorough) trials per shard of 2-4 OS threads released by a barrier on a fresh resource",
+    "rule": "scheduled half: 112 scenarios = {2,3 threads} x {1,2 build/exit pairs each} x {brand-new, existing resource} x {inbound, outbound} x {clock fixed inside a bucket, a further thread steps the clock at a scheduler-chosen point by 100 ms (inside the bucket: response times become non-zero, totals stay exact), 300 / 600 ms (across one / two bucket edges) or 10 s (one whole ring interval: the same slot again)} x {all exited, last entry of every thread left open}; each scenario explored with 5000 (quick) / 50000 (thorough) executions split over a random scheduler and PCT depth 1-3; evaluations = executions, distinct_nontrivial = number of DISTINCT schedules (hash of the sequence of scheduling decisions) summed over scenarios - every execution has >=2 contending threads. Stress half: 12k (quick) / 200k (thorough) trials per shard of 2-4 OS threads released by a barrier on a fresh resource",
     "level_text": "After join in every execution: all entries were accounted on the one node registered for the resource (Arc identity), in-flight equals the un-exited entries, pass/complete/rt totals equal the per-thread sums when the clock is fixed inside one bucket and never exceed them when the clock steps; same on the global inbound node; sampled schedules, not exhaustive (shuttle has no preemption-bounded exhaustive mode that terminates here: ~400 scheduling points per execution).",
     "level_note": "Every schedule with <= 1 preemption is executed for every scenario (<= 2 for the smallest fixed-clock ones; thorough: 2-3), see coverage.preemption_bounded_*; beyond the bound schedules are sampled (random + PCT). shuttle's atomics are sequentially consistent (weaker orderings are not modelled).",
     "design_ref": "DESIGN.md §5 C14",
